@@ -5,9 +5,12 @@ regenerate lean/Norad/Generated/StoreConsts.lean (DESIGN 3.5).
 Sections (each falls back to the committed pinned copy tools/pinned/StoreConsts.lean when its anchor in the source
 is not found - a refactor is never an alarm; the result then says `extraction: pinned`):
 
-  pngSignature   the byte list of `data.starts_with(&[137u8, 80, ...])` in `<Image as DataType>::validate_entry`
+  pngSignature   the byte list of `data.starts_with(&[137u8, 80, ...])` in the code `<Image as DataType>::validate_entry`
+                 executes: its own body, or the sibling method it ends in (`self.validate_contents(data)`), one level
   storeDirs      static DATA_DIR: &str = "data";  static IMAGES_DIR: &str = "images";   (src/font.rs)
-  dataClauses    the `StoreError::X` variants returned by `<Data as DataType>::validate_entry`, in source order
+  dataClauses    the `StoreError::X` variants returned by `<Data as DataType>::validate_entry` (and by the sibling method
+                 it ends in, one level), in source order; any other shape of the function (a tail that is neither
+                 `Ok(())` nor one sibling call, nested delegation) is an unknown shape -> pinned copy
   imageClauses   the same for `<Image as DataType>::validate_entry`
   forceLoop      does the pre-write loop of `save_impl` visit BOTH stores
                  (`for (..) in self.data.iter().chain(self.images.iter())`)?
@@ -68,13 +71,55 @@ def lean_str(s):
     return "[" + ", ".join("'" + c + "'" for c in s) + "]"
 
 
+def tail_expr(body):
+    """the tail expression of a brace block (text after the last `;` or `}` at depth 1)"""
+    inner = body[1:-1]
+    depth, last = 0, 0
+    for i, c in enumerate(inner):
+        if c in "{([":
+            depth += 1
+        elif c in "})]":
+            depth -= 1
+            if depth == 0 and c == "}":
+                last = i + 1
+        elif c == ";" and depth == 0:
+            last = i + 1
+    return inner[last:].strip()
+
+
+def entry_bodies(ds, kind):
+    """The code `validate_entry` of `kind` executes, as a list of blocks: its own body and - when it ends in a
+    call of another method of the same impl block (`self.validate_contents(data)`) - that method's body.
+    The known shape is: early returns, then `Ok(())` or exactly one such tail call whose target ends in `Ok(())`.
+    Anything else is an unknown shape (-> pinned copy)."""
+    impl = impl_block(ds, kind)
+    body = fn_block(impl, "validate_entry")
+    out = [body]
+    tail = tail_expr(body)
+    if re.fullmatch(r"Ok\(\s*\(\s*\)\s*\)", tail):
+        return out
+    m = re.fullmatch(r"self\s*\.\s*(\w+)\s*\([^()]*\)", tail)
+    if not m or m.group(1) == "validate_entry":
+        raise NotFound("tail of %s::validate_entry is neither Ok(()) nor a call of a sibling method" % kind)
+    callee = fn_block(impl, m.group(1))
+    if not re.fullmatch(r"Ok\(\s*\(\s*\)\s*\)", tail_expr(callee)):
+        raise NotFound("tail of %s::%s is not Ok(())" % (kind, m.group(1)))
+    # no further delegation inside the blocks (a deeper call chain is an unknown shape)
+    for b in (body[: body.rfind(tail)], callee):
+        if re.search(r"\bself\s*\.\s*\w+\s*\(", b):
+            raise NotFound("nested method calls in %s::validate_entry" % kind)
+    out.append(callee)
+    return out
+
+
 def sec_png(ds, ft):
-    body = fn_block(impl_block(ds, "Image"), "validate_entry")
-    m = re.search(r"\.starts_with\(\s*&\[([^\]]*)\]\s*\)", body)
-    if not m:
-        raise NotFound("starts_with(&[..]) in Image::validate_entry")
+    found = []
+    for body in entry_bodies(ds, "Image"):
+        found += re.findall(r"\.starts_with\(\s*&\[([^\]]*)\]\s*\)", body)
+    if len(found) != 1:
+        raise NotFound("exactly one starts_with(&[..]) in the code Image::validate_entry executes")
     nums = []
-    for tok in m.group(1).split(","):
+    for tok in found[0].split(","):
         tok = tok.strip()
         if not tok:
             continue
@@ -102,8 +147,9 @@ def sec_dirs(ds, ft):
 
 def sec_clauses(kind, lean_name):
     def f(ds, ft):
-        body = fn_block(impl_block(ds, kind), "validate_entry")
-        vs = re.findall(r"Err\(\s*StoreError::(\w+)", body)
+        vs = []
+        for body in entry_bodies(ds, kind):
+            vs += re.findall(r"Err\(\s*StoreError::(\w+)", body)
         if not vs:
             raise NotFound("no StoreError variant in " + kind + "::validate_entry")
         return ("def %s : List (List Char) :=\n  [" % lean_name) + ",\n   ".join(lean_str(v) for v in vs) + "]\n"
